@@ -147,6 +147,10 @@ type Sched struct {
 	// SuspendTimers offers, as a schedule deviation, to postpone a timer callback that has
 	// just started until the next packet delivery has been processed ("slow timer goroutine").
 	SuspendTimers bool
+	// SuspendTimersLate offers the same postponement also at the callback's second scheduling
+	// point: the timer has already decided that it expired (its own mutex taken and released)
+	// and is about to take the lock of the object it reports to.
+	SuspendTimersLate bool
 	// YieldAfterUnlock makes the release of an exclusive lock a scheduling point as well.
 	YieldAfterUnlock bool
 	// YieldAfterSelect makes the moment a select statement of the library has fired (a channel
@@ -517,7 +521,7 @@ func (s *Sched) loop() {
 		}
 		if s.SuspendTimers {
 			for _, t := range en {
-				if t.Role == "timer" && t.Points == 1 {
+				if t.Role == "timer" && (t.Points == 1 || (s.SuspendTimersLate && t.Points == 2)) {
 					tt := t
 					menu = append(menu, Action{Sig: "suspend:" + t.Name, Cat: CatSched, Run: func() {
 						s.mu.Lock()
